@@ -16,7 +16,7 @@ TEMPLATES = [
     "d = {'k': a}\nd['k'] += b\ndel d['k']\nt(1, d)",
 ]
 SWALLOW = ["h(v => t(1, v) + one)\nt(2)", "h(v => [t(1), t(2)])\nt(3) or t(4)"]
-CROSS_FAIL = [("f = x => x + a\nnosuchname", "f(a)"), ("f = x => x + a\na + a + a + a + a + a + a + a", "[a, a] | map(f)")]
+CROSS_FAIL = [("f = x => x + a\nnosuchname", "f(a)"), ("f = x => x + a\na + a + a", "f(a) + f(a)")]
 CROSS = [("f = x => x + a", "f(a)"), ("g = (x, y) => x if y else a\nf = x => g(x, a)", "l = [a, a]\nl | map(f)")]
 
 
